@@ -217,6 +217,37 @@ struct Adv<'a> {
     forge_left: u32,
     /// transactions the user asked for (fetch_transaction) that were never committed on any chain; the adversary knows their bodies
     uncommitted: std::collections::HashMap<Byte32, ckb_types::core::TransactionView>,
+    /// headers the user asked for (fetch_header) that belong to no chain: a real block re-built with another body, re-committed, re-mined
+    made_up_blocks: std::collections::HashMap<Byte32, ckb_types::core::BlockView>,
+}
+
+/// Answer to a GetBlocksProof that names a made-up block: the honest answer for the genuine hashes plus the made-up header (v1 fields
+/// consistent with it). The MMR proof covers the genuine headers only; when the genuine header of the same height is part of the answer
+/// there are two headers with one block number.
+fn forged_blocks_answer(chain: &Chain, req: &packed::GetBlocksProof, made_up: &std::collections::HashMap<Byte32, ckb_types::core::BlockView>) -> Option<(Vec<u8>, String)> {
+    let last = chain.num_of(&req.last_hash())?;
+    let fake = req.block_hashes().into_iter().find_map(|h| made_up.get(&h).cloned())?;
+    if fake.number() >= last {
+        return None;
+    }
+    let parts = server::blocks_proof_parts(chain, req);
+    let mut headers: Vec<packed::Header> = parts.found.iter().map(|n| chain.blocks[*n as usize].header().data()).collect();
+    let mut uncles: Vec<Byte32> = parts.found.iter().map(|n| chain.blocks[*n as usize].calc_uncles_hash()).collect();
+    let mut exts: Vec<packed::BytesOpt> = parts.found.iter().map(|n| Pack::pack(&chain.blocks[*n as usize].extension())).collect();
+    let rel = if parts.found.contains(&fake.number()) { "same-height-as-a-genuine-header-of-the-answer" } else if parts.found.is_empty() { "no-genuine-header-in-the-answer" } else { "other-height-than-the-genuine-headers" };
+    headers.push(fake.header().data());
+    uncles.push(fake.calc_uncles_hash());
+    exts.push(Pack::pack(&fake.extension()));
+    let missing: Vec<Byte32> = parts.missing.iter().filter(|m| **m != fake.hash()).cloned().collect();
+    let m = packed::SendBlocksProofV1::new_builder()
+        .last_header(chain.vh(last))
+        .proof(chain.proof(last, &parts.found))
+        .headers(headers.pack())
+        .missing_block_hashes(missing.pack())
+        .blocks_uncles_hash(uncles.pack())
+        .blocks_extension(packed::BytesOptVec::new_builder().set(exts).build())
+        .build();
+    Some((server::lc_raw_union(packed::SendBlocksProof::default().into(), m.as_slice()).to_vec(), format!("SendBlocksProof|made-up-header-the-user-asked-for|{}", rel)))
 }
 
 /// Answer to a GetTransactionsProof that names a never-committed transaction: the honest answer for everything else, plus a filtered
@@ -262,6 +293,15 @@ fn forged_txs_answer(rng: &mut Rng, chain: &Chain, req: &packed::GetTransactions
 impl<'a> Hook for Adv<'a> {
     fn respond(&mut self, w: &mut World, pi: usize, sent: &Sent, honest: Vec<Resp>) -> Vec<Resp> {
         let chain = &w.chains[w.peers[pi].chain];
+        if sent.proto == LC.id() && !self.made_up_blocks.is_empty() && self.rng.chance(2, 3) {
+            if let Ok(m) = packed::LightClientMessageReader::from_compatible_slice(&sent.data) {
+                if let packed::LightClientMessageUnionReader::GetBlocksProof(r) = m.to_enum() {
+                    if let Some((d, op)) = forged_blocks_answer(chain, &r.to_entity(), &self.made_up_blocks) {
+                        return vec![Resp { proto: P::Lc, data: d.into(), label: Label::Invalid(op) }];
+                    }
+                }
+            }
+        }
         if sent.proto == LC.id() && !self.uncommitted.is_empty() && self.rng.chance(2, 3) {
             if let Ok(m) = packed::LightClientMessageReader::from_compatible_slice(&sent.data) {
                 if let packed::LightClientMessageUnionReader::GetTransactionsProof(r) = m.to_enum() {
@@ -403,7 +443,7 @@ fn scenario(seed: u64, k: u64, out: &Out) {
         }
     }
     let desc = json!({"seed": seed, "scenario": k, "len": len, "last_n": ccfg.last_n, "peers": npeers, "pow": format!("{:?}", params.pow)});
-    let mut adv = Adv { out, k, rng: rng.fork(5), pct: *rng.pick(&[10u64, 25, 50]), desc: desc.clone(), before: None, judged: 0, substituted: vec![], hot: hot.clone(), forge_left: if rng.chance(1, 3) { 1 } else { 0 }, uncommitted: Default::default() };
+    let mut adv = Adv { out, k, rng: rng.fork(5), pct: *rng.pick(&[10u64, 25, 50]), desc: desc.clone(), before: None, judged: 0, substituted: vec![], hot: hot.clone(), forge_left: if rng.chance(1, 3) { 1 } else { 0 }, uncommitted: Default::default(), made_up_blocks: Default::default() };
     w.connect_all();
     for step in 0..rng.range(20, 70) {
         if w.dead {
@@ -424,6 +464,14 @@ fn scenario(seed: u64, k: u64, out: &Out) {
             if rng.chance(1, 2) {
                 let h: H256 = b.hash().unpack();
                 let _ = w.c().rpc_chain().fetch_header(h);
+                if rng.chance(1, 3) && b.transactions().len() > 1 {
+                    // ... and for a block nobody mined on any chain: the same block with only its cellbase, header re-committed, re-mined
+                    let fake = b.as_advanced_builder().set_transactions(vec![b.transactions()[0].clone()]).build();
+                    let fake = super::super::chain::mine_block(c.params.pow, fake, rng.next_u64());
+                    let fh: H256 = fake.hash().unpack();
+                    adv.made_up_blocks.insert(fake.hash(), fake);
+                    let _ = w.c().rpc_chain().fetch_header(fh);
+                }
             } else if rng.chance(1, 3) {
                 // the user asks for a transaction that was never committed (its body is known to everybody, e.g. it was broadcast once)
                 let t = TransactionBuilder::default()
